@@ -72,9 +72,8 @@ Section Cluster.
   Variable d : Z.                 (* bound on the one-way message delay, ns *)
 
   Inductive wstep : world -> world -> Prop :=
-  | ws_skip : forall w l1 x l2,
+  | ws_skip : forall w l1 x l2,      (* a cancelled timer does nothing: it may be dropped at any time *)
       pool w = l1 ++ x :: l2 ->
-      (forall y, In y (l1 ++ l2) -> p_time x <= p_time y) ->
       is_cancelled w x = true ->
       wstep w (mkWorld (nodes w) (l1 ++ l2) (cancelled w))
   | ws_deliver : forall w l1 x l2 i delays st' outs,
